@@ -125,3 +125,26 @@ func vfReadTokens(sm *SessionManager, jar map[string]string) (idToken, refreshTo
 	}
 	return sd.GetAccessToken(), sd.GetRefreshToken(), true
 }
+
+// vfWorldRefreshTick is what the hourly metadata refresh does (the body of the loop of startMetadataRefresh), after the
+// cached provider document has run out: fetch it again and take the endpoints from it
+func vfWorldRefreshTick(t *TraefikOidc, providerURL string) {
+	c := t.metadataCache
+	c.mutex.Lock()
+	c.expiresAt = time.Now().Add(-time.Minute)
+	c.mutex.Unlock()
+	metadata, err := t.metadataCache.GetMetadata(providerURL, t.httpClient, t.logger)
+	if err != nil || metadata == nil {
+		return
+	}
+	t.updateMetadataEndpoints(metadata)
+}
+
+// vfWorldExpireJWKS lets the cached provider key set of an instance run out (its lifetime is one hour)
+func vfWorldExpireJWKS(t *TraefikOidc) {
+	if c, ok := t.jwkCache.(*JWKCache); ok {
+		c.mutex.Lock()
+		c.expiresAt = time.Now().Add(-time.Minute)
+		c.mutex.Unlock()
+	}
+}
